@@ -62,6 +62,11 @@ technique_round3["C02"] += ", exact backward/forward window-guard rules (needed-
 technique_round3["C05"] += ", must-dispose path rule for openers taken off the pending list"
 technique_round3["C09"] += ", exact window guards outside util (needed-offset analysis), nil-line/blank-line successor agreement"
 technique_round3["C11"] += ", literal-prefix analysis of the WWW pattern with a dominating raw-line prefix test"
+technique_round3["C01"] += ", inductive flag/mark/index invariant over feasible loop cycles, forward must-analysis 'success implies progress' for sub-parsers called in loops"
+technique_round3["C05"] += ", stale-handle rule for loops that replace the node they work on"
+technique_round3["C09"] += ", read-modify-write rule for document-level accumulators in the parse context"
+technique_round3["C16"] += ", dominance of the list sort over attaching the list"
+technique_round3["C19"] += ", ordering rule (copy parent state before adding keys) in the deriving methods"
 for k, v in technique_round3.items():
     technique[k] = technique[k] + "; " + v
 
